@@ -279,10 +279,12 @@ class ResourceMap:
         supermap).
         """
         # Before scrapping everything, update their parent information
-        for handle in self.handles.values():
-            if handle.parent == self:
-                handle.parent = None
-                handle.key = None
+        # (shadowed handles included)
+        for layer in self.handles.maps:
+            for handle in layer.values():
+                if handle.parent == self:
+                    handle.parent = None
+                    handle.key = None
 
         for map_ in self.maps.values():
             if map_.parent == self:
@@ -290,7 +292,8 @@ class ResourceMap:
                 map_.key = None
 
         self.maps.clear()
-        self.handles.clear()
+        for layer in self.handles.maps:
+            layer.clear()
 
     def get_static_map(self) -> StaticResourceMap:
         """Generate a static map for convenience resource access.
